@@ -9,6 +9,7 @@ From PSA Require Import model.Config spec.SpecConfig.
 From PSA Require Import model.Client.
 From PSA Require Import spec.SpecClient model.ClientRx model.Tmpl.
 From PSA Require Import model.Fs spec.SpecFs.
+From PSA Require model.Res.
 Open Scope N_scope.
 
 Definition arg (args : list (list N)) (i : nat) : list N := nth i args [].
@@ -532,6 +533,18 @@ Definition dispatch_c20 (tag : N) (a : LL) : LL :=
   | _ => [[99]]
   end.
 
+(* ---- C19: resource accounting.  arg 0 = flat list of pairs describing the observed history ---- *)
+Fixpoint nat_pairs (l : list N) : list (nat * nat) :=
+  match l with x :: y :: r => (N.to_nat x, N.to_nat y) :: nat_pairs r | _ => [] end.
+Definition res_fuel (evs : list nat) : nat := 64 * (length evs + 4).
+Definition dispatch_c19 (tag : N) (a : LL) : LL :=
+  let xs := nat_pairs (arg a 0) in
+  match tag with
+  | 1901 => let evs := Res.obs_server_events xs in [Res.observable (Res.drive (res_fuel evs) (Res.init (Res.obs_server xs)) [] evs)]
+  | 1902 => let evs := Res.obs_client_events xs in [Res.observable (Res.drive (res_fuel evs) (Res.init (Res.obs_client xs)) [] evs)]
+  | _ => [[99]]
+  end.
+
 Definition dispatch (tag : N) (a : list (list N)) : list (list N) :=
   if (1300 <=? tag) && (tag <? 1400) then dispatch_c13 tag a
   else if (1200 <=? tag) && (tag <? 1300) then dispatch_c12 tag a
@@ -544,4 +557,5 @@ Definition dispatch (tag : N) (a : list (list N)) : list (list N) :=
   else if (1400 <=? tag) && (tag <? 1500) then dispatch_c14 tag a
   else if (1600 <=? tag) && (tag <? 1700) then dispatch_c16 tag a
   else if (2000 <=? tag) && (tag <? 2100) then dispatch_c20 tag a
+  else if (1900 <=? tag) && (tag <? 2000) then dispatch_c19 tag a
   else [[99]].
